@@ -314,10 +314,17 @@ impl SyntaxTemplate {
                             SyntaxTemplate::substitute_template_element(
                                 &template_element,
                                 substitutions,
-                            )?,
+                            )?
+                            .into_iter()
+                            .map(PairIterItem::Proper),
                         ),
+                        // the tail of a dotted template stays the tail of the result
                         PairIterItem::Improper(SyntaxTemplateElement(last, false)) => {
-                            substituted_pair_items.extend(last.substitude(substitutions)?)
+                            substituted_pair_items.extend(
+                                last.substitude(substitutions)?
+                                    .into_iter()
+                                    .map(PairIterItem::Improper),
+                            )
                         }
                         _ => {
                             return error!(SyntaxError::UnexpectedDatum(
@@ -326,7 +333,7 @@ impl SyntaxTemplate {
                         }
                     }
                 }
-                let substituded_list = substituted_pair_items.into_iter().collect();
+                let substituded_list = GenericPair::from_pair_iter(substituted_pair_items)?;
 
                 Ok(vec![
                     DatumBody::Pair(Box::new(substituded_list)).locate(location)
